@@ -7,6 +7,7 @@ from scoda.elements.bar import Bar
 from scoda.misc.music_theory import Key
 
 ENGINE = "E1-sweep"
+TICK_EVERY = 5      # every 5th case of every unit is repeated with numpy integer ticks (int64 / int32)
 RULE = ("all sequences of <=3 notes over the pitch alphabet {21,22,32,33,60,96,97,107,108} x 2 onsets (wrapped notes can "
         "collide), sequences with a key signature in each of the 15 keys, and bars built from them (4 key settings) x EVERY "
         "interval in [-100,100]; non-trivial = interval != 0")
@@ -15,7 +16,7 @@ ASSUMPTIONS = ["when octave wrapping happens only the image/in-range/return-valu
                "and re-quantises lengths there)"]
 REQUIRED_FLAGS = ["after_history", "aliased_messages_inside_sequence", "wrapped_up", "wrapped_down", "not_wrapped_exact", "interval_multiple_of_12", "interval_beyond_range",
                   "key_event_transposed", "bar_key_transposed", "collision_after_wrap", "roundtrip_checked",
-                  "seven_or_more_notes_held_at_once", "scale_ladder"]
+                  "seven_or_more_notes_held_at_once", "scale_ladder", "interval_as_numpy_integer"]
 
 PITCHES = [21, 22, 32, 33, 60, 96, 97, 107, 108]
 TONIC = {"C": 0, "G": 7, "D": 2, "A": 9, "E": 4, "B": 11, "F#": 6, "C#": 1, "F": 5, "Bb": 10, "Eb": 3, "Ab": 8,
@@ -99,11 +100,15 @@ def gen_cases(unit, ctx):
         for key in KEYS:
             for ns in ([], [al[0]], [al[4], al[17]]):
                 yield {"notes": [list(n) for n in ns], "key": key, "bar": False, "iv": iv}
+                if ns and len(ns) == 1:
+                    yield {"notes": [list(n) for n in ns], "key": key, "bar": False, "iv": iv, "ivtype": "int64" if iv % 2 else "int32"}
     else:
         for key in (None, "C", "F#", "Cb", "Eb"):
             for ns in ([], [al[0]], [al[4]], [al[8], al[9]], [al[1], al[16]]):     # incl. a bar of rests only
                 for seqkey in (None, "G"):
                     yield {"notes": [list(n) for n in ns], "key": seqkey, "bar": True, "barkey": key, "iv": iv}
+                    if len(ns) == 1 and key:
+                        yield {"notes": [list(n) for n in ns], "key": seqkey, "bar": True, "barkey": key, "iv": iv, "ivtype": "int64"}
 
 
 def check_case(case, ctx):
@@ -154,8 +159,13 @@ def check_case(case, ctx):
         R.flags.append("interval_multiple_of_12")
     if abs(iv) > 87:
         R.flags.append("interval_beyond_range")
+    iv_arg = iv
+    if case.get("ivtype"):
+        import numpy as np
+        iv_arg = getattr(np, case["ivtype"])(iv)
+        R.flags.append("interval_as_numpy_integer")
     try:
-        ret = obj.transpose(iv)
+        ret = obj.transpose(iv_arg)
         after = lib.obs(s)
     except Exception as e:  # noqa: BLE001
         R.bad("transpose_raises", f"{type(e).__name__}: {e}")
@@ -203,7 +213,7 @@ def check_case(case, ctx):
     if not expect_shift and not R.viols:
         R.flags.append("not_wrapped_exact")
         try:
-            ret2 = obj.transpose(-iv)
+            ret2 = obj.transpose(-iv_arg)
             back = lib.obs(s)
             R.flags.append("roundtrip_checked")
             def strip(o):  # enharmonic spelling of keys may differ after a round trip: compare tonics
